@@ -293,4 +293,59 @@ theorem reply_timeout_transmits (c : Ctx) (now l : Int) (hinv : Inv c.s c.apps) 
   obtain ⟨c', h, -, -, -, -, -⟩ := silent_bus_progress c now l hinv hon htx hrx hl hlate
   exact ⟨c', h, (silent_poll_transmits_iff c now l hinv hon htx hrx hl hlate c' h).2 (by simp [pollsToTx, hst])⟩
 
+/-! ## Non-vacuity and tightness
+
+A concrete station (TS 1, HSA 2, alone on the bus) that has claimed the token and waits for the reply
+of the only GAP address 0.  It satisfies all hypotheses of the theorems above, needs the full three
+late polls (`pollsToTx = 3`): the first two late polls transmit nothing (`ClaimToken(Scan)` with the
+sweep finished, then `PassToken`), the third passes the token to itself.  The same history on the real
+code: `corpus/station/C06_three_polls.ops`. -/
+
+def demoParams : Params :=
+  { address := 1, rate := 500000, slotBits := 100, ttrBits := 20000, gapWait := 1, hsa := 2, maxRetry := 1,
+    minTsdrBits := 11 }
+
+def demo : Station :=
+  { (Station.new demoParams) with
+      online := true, st := .claimToken (.scanAwait 0), gap := .doPoll 0, lastBusActivity := some 300066,
+      ring := (TokenRing.new 1).claimToken }
+
+theorem demo_inv : Inv demo [] := by
+  refine ⟨by decide, by decide, TokenRing.new_ok 1 (by decide), by simp [demo], ?_, ?_, ?_, by simp, ?_, ?_, by simp [demo]⟩
+  · intro cur h; simp [demo] at h; subst h; decide
+  · intro a h; simp [demo] at h
+  · intro a h; simp [demo] at h; subst h; exact ⟨rfl, by decide⟩
+  · intro a d h; simp [demo] at h
+  · intro sc h; cases h
+
+example : pollsToTx demo = 3 := by decide
+
+example : demoParams.silence = 1600 := by decide
+
+/-- The hypotheses of `silent_bus_three_polls` / `never_permanently_silent` hold for `demo`. -/
+example : TransmitsWithin demo [] [] [400000, 500000, 600000] :=
+  silent_bus_three_polls demo [] 300066 400000 500000 600000 demo_inv rfl rfl (by decide) (by decide) (by decide)
+
+/-- Two late polls are not enough in general: `demo` stays silent in both, ends in `PassToken`. -/
+example : (match demo.poll [] 400000 false [] with
+    | .ok c1 => (match c1.s.poll c1.apps 500000 false c1.rx with
+      | .ok c2 => (c1.tx, c1.s.st, c1.s.gap, c2.tx, c2.s.st)
+      | .panic _ => (none, .offline, .waiting 9, none, .offline))
+    | .panic _ => (none, .offline, .waiting 9, none, .offline)) =
+    (none, .claimToken .scan, .waiting 0, none, .passToken false .first) := by decide
+
+def listenDemo : Station :=
+  { (Station.new demoParams) with online := true, st := .listenToken none 0, lastBusActivity := some 0 }
+
+/-- Non-vacuity of `claim_progress`: a listening station (TS 1) after 1600 µs (800 bit at 500 kbit/s) of silence. -/
+example : ∃ c', pollInner { s := listenDemo, apps := [], rx := [] } 1600 false = .ok c' ∧ c'.tx = some (selfToken 1) := by
+  have hinv : Inv listenDemo [] := by
+    refine ⟨by decide, by decide, TokenRing.new_ok 1 (by decide), by simp [listenDemo], ?_, by simp [listenDemo],
+      by simp [listenDemo], by simp, by simp [listenDemo], ?_, by simp [listenDemo]⟩
+    · intro cur h; simp [listenDemo, Station.new] at h; subst h; decide
+    · intro sc h; cases h
+  obtain ⟨c', h, -, htx, -⟩ := claim_progress { s := listenDemo, apps := [], rx := [] }
+    1600 0 hinv rfl rfl rfl rfl (Or.inl ⟨none, 0, rfl⟩) (by decide) (by decide)
+  exact ⟨c', h, htx⟩
+
 end PV.C06
